@@ -1,7 +1,9 @@
 SPECIFICATION Spec
 CONSTANTS MaxRecs = 3 MaxCalls = 4 MaxRuns = 3 CommitBeforeReturn = TRUE TolerantVersionRead = TRUE
           AtomicUpgrade = TRUE Legacy = FALSE MaxBatches = 0 GateResetOnError = TRUE ReloadWait = 0 MaxDepth = 1 EnterKeepsPending = TRUE ParentFirst = FALSE
+CONSTANTS MaxVers = 1 TokenConflict = "ignore" MaxFaults = 0 CommitErrorRaises = TRUE
 INVARIANT TypeOK
+INVARIANT AckedUnchanged
 INVARIANT AckedDurable
 INVARIANT NoPartialRecord
 INVARIANT ReopenOk
